@@ -70,7 +70,8 @@ def build_source(form, pos, mention, own):
         a += f"\n  * related:\n    - {MZ} see this one"
     elif mention == "later-note":
         b += f" refers to {MZ} here"
-    head = "# Source page #inh +proj\n# hk::hv [spaced:: two words]\n\n"
+    # one-word values that are not plain identifiers must survive as well
+    head = "# Source page #inh +proj\n# hk::hv [spaced:: two words] [dash:: a-b] [u:: https://ex.com/p/q.html]\n\n"
     if pos == "first":
         body = "\n".join(note + [a, b]) + "\n"
         if mention.startswith("earlier"):
